@@ -108,6 +108,14 @@ func (t *ProcessorTask) Do(ctx context.Context, b *Batch) error {
 	}
 	t.metrics.Observe(len(recsOut), start)
 
+	if len(recsOut) > len(recsIn) {
+		// More results than inputs cannot be aligned with the batch: the
+		// surplus would shift every later result onto the wrong record and
+		// the last records would be acked without ever being delivered.
+		// Deterministic plugin misbehaviour, so fatal (as in the stream engine).
+		return cerrors.FatalError(cerrors.Errorf("processor was given %d record(s), but returned %d", len(recsIn), len(recsOut)))
+	}
+
 	if len(recsIn) > len(recsOut) {
 		// Processor skipped some records, append empty records, so that we can
 		// mark them to be retried.
